@@ -189,7 +189,7 @@ def check(ctx):
         else:
             ctx.fail('C10.3', ctx.site(helper), 'failure exit of the plaintext helper is not Err(UnknownRecipient): %s' % [fmt(e) for e in errs], key='C10.3|helper_err')
     # ---- C10.4 compositions
-    def comp(name, pred, desc):
+    def comp(name, pred, desc, expected=None):
         b = F.method1('Envelope', name)
         if b is None:
             ctx.lost('C10.4', 'Envelope::' + name)
@@ -203,7 +203,7 @@ def check(ctx):
             u = m_call(v, name='unwrap') or m_call(v, name='expect')
             if u is not None:
                 v = u[0]
-            if pred(v):
+            if pred(v) or same_mod_inline(F, v, expected):
                 ctx.ok('C10.4', ctx.site(b, bi, si), '%s = %s' % (name, desc), sample=fmt(v))
             else:
                 ctx.fail('C10.4', ctx.site(b, bi, si), '%s returns %s, expected %s' % (name, fmt(v), desc), key='C10.4|' + name)
@@ -214,10 +214,16 @@ def check(ctx):
     if not ctx.has('signature'):
         ctx.skip('C10.4', 'seal/unseal compiled out without the signature feature')
     else:
-      comp('seal', lambda v: is_call(v, 'encrypt_to_recipient', lambda s: is_call(s, 'sign', eq(P1), eq(P2)), eq(P3)), 'encrypt_to_recipient(sign(self, sender), recipient)')
-      comp('unseal', lambda v: is_call(v, 'verify', lambda s: is_call(s, 'decrypt_to_recipient', eq(P1), eq(P3)), eq(P2)), 'verify(decrypt_to_recipient(self, recipient)?, sender)')
-    comp('encrypt_to_recipient', lambda v: is_call(v, 'encrypt_subject_to_recipient', lambda s: is_call(s, 'wrap_envelope', eq(P1)), eq(P2)), 'encrypt_subject_to_recipient(wrap(self), recipient)')
-    comp('decrypt_to_recipient', lambda v: is_call(v, 'unwrap_envelope', lambda s: is_call(s, 'decrypt_subject_to_recipient', eq(P1), eq(P2))), 'unwrap_envelope(decrypt_subject_to_recipient(self, recipient)?)')
+      E = lambda *a: expected_call(F, *a)
+      comp('seal', lambda v: is_call(v, 'encrypt_to_recipient', lambda s: is_call(s, 'sign', eq(P1), eq(P2)), eq(P3)), 'encrypt_to_recipient(sign(self, sender), recipient)',
+           E('encrypt_to_recipient', E('sign', P1, P2), P3))
+      comp('unseal', lambda v: is_call(v, 'verify', lambda s: is_call(s, 'decrypt_to_recipient', eq(P1), eq(P3)), eq(P2)), 'verify(decrypt_to_recipient(self, recipient)?, sender)',
+           E('verify', E('decrypt_to_recipient', P1, P3), P2))
+    E = lambda *a: expected_call(F, *a)
+    comp('encrypt_to_recipient', lambda v: is_call(v, 'encrypt_subject_to_recipient', lambda s: is_call(s, 'wrap_envelope', eq(P1)), eq(P2)), 'encrypt_subject_to_recipient(wrap(self), recipient)',
+         E('encrypt_subject_to_recipient', E('wrap_envelope', P1), P2))
+    comp('decrypt_to_recipient', lambda v: is_call(v, 'unwrap_envelope', lambda s: is_call(s, 'decrypt_subject_to_recipient', eq(P1), eq(P2))), 'unwrap_envelope(decrypt_subject_to_recipient(self, recipient)?)',
+         E('unwrap_envelope', E('decrypt_subject_to_recipient', P1, P2)))
 
 
 _check_inner = check
